@@ -60,6 +60,18 @@ Opt-in generic rewrites (fn options; additive, used by unit odsxml; each applica
         `verif_fmt_lit(&mut String, &str)` (appends the text) and `verif_fmt_arg<T>(&mut String, &T)` (appends `Display` of the value)
         with their contracts.  Sites of any other shape are left alone (Verus then rejects the file: undecided, never a silent change).
 
+  R16   case split of a `match` (additive, unit xlsfml): sub-directive `//@@ case_split /REGEX/ keep=i,j,..` of a fn block.  REGEX must match
+        exactly once and end at the `{` that opens a `match`; the arms of that match are numbered in source order.  In this copy of the
+        function every arm that is NOT kept starts with `proof { assume(false); }`, i.e. this copy's verification condition covers the
+        executions whose iteration takes a kept arm (plus everything outside the match); the same real function is extracted several times
+        (`alias=`), and splice REFUSES the unit (exit 2) unless the kept sets of all copies of that function (same REGEX) together
+        contain every arm.  This is verification by cases: an execution path through arm k is checked in the copy that keeps k, under the
+        same contract and loop invariants (the copies share their annotation text via `same_as=`), so every obligation of the function
+        is checked in at least one copy; what the split buys is that each SMT query contains the terms of a few arms only (measured on
+        xls::parse_formula: 27 arms in one query > 15 min, the same arms in 8 queries < 10 s each).  Each application is logged.
+  same_as=ALIAS  (fn option) the sub-directives of the earlier fn block of the same function with `alias=ALIAS` are used for this copy too
+        (followed by this block's own sub-directives)
+
 Exit codes: 0 ok, 2 lost anchor / unsupported (never a violation).
 """
 import json, os, re, subprocess, sys, hashlib
@@ -249,6 +261,67 @@ def r13_pieces(lit):
             i += 1
     pieces.append(cur)
     return pieces
+
+
+def match_arms(text, open_idx):
+    """arms of the match whose `{` is at text[open_idx]: list of (arm start, index of the `{` opening the arm's block body or None)"""
+    end = balanced_end(text, open_idx, "{", "}") - 1
+    arms, i, n = [], open_idx + 1, end
+    while True:
+        while i < n and (text[i].isspace() or text[i] == ","):
+            i += 1
+        if i < n and text[i : i + 2] == "//":
+            while i < n and text[i] != "\n":
+                i += 1
+            continue
+        if i >= n:
+            break
+        a_start = i
+        # pattern (and guard) up to `=>` at depth 0
+        depth = 0
+        while i < n:
+            ch = text[i]
+            if ch == '"':
+                i += 1
+                while i < n and text[i] != '"':
+                    if text[i] == "\\":
+                        i += 1
+                    i += 1
+            elif ch in "([{":
+                depth += 1
+            elif ch in ")]}":
+                depth -= 1
+            elif ch == "=" and text[i : i + 2] == "=>" and depth == 0:
+                break
+            i += 1
+        if i >= n:
+            raise LostAnchor("case_split: arm without `=>`")
+        i += 2
+        while i < n and text[i].isspace():
+            i += 1
+        if text[i] == "{":
+            body_open = i
+            i = balanced_end(text, i, "{", "}")
+        else:
+            body_open = None
+            depth = 0
+            while i < n:
+                ch = text[i]
+                if ch == '"':
+                    i += 1
+                    while i < n and text[i] != '"':
+                        if text[i] == "\\":
+                            i += 1
+                        i += 1
+                elif ch in "([{":
+                    depth += 1
+                elif ch in ")]}":
+                    depth -= 1
+                elif ch == "," and depth == 0:
+                    break
+                i += 1
+        arms.append((a_start, body_open))
+    return arms
 
 
 class FnSpec:
@@ -520,6 +593,26 @@ def render_fn(fs, out, unit, log):
             log["rewrites"].append({"rule": "R6", "fn": flabel, "loop": k, "iter": expr})
         elif kind == "closure":
             pass  # handled below
+        elif kind == "case_split":
+            m = re.match(r"/(.+)/\s+keep=([\d,]*)\s*$", arg)
+            if not m:
+                raise SystemExit(f"template line {tline}: bad case_split {arg}")
+            ms = list(anchor_rx(m.group(1)).finditer(text, body_s, body_e))
+            if len(ms) != 1 or text[ms[0].end() - 1] != "{":
+                raise LostAnchor(f"fn {fs.path}: case_split /{m.group(1)}/ must match exactly once and end at the `{{` of the match ({len(ms)} matches)")
+            keep = sorted(int(x) for x in m.group(2).split(",") if x)
+            arms = match_arms(text, ms[0].end() - 1)
+            for k in keep:
+                if k >= len(arms):
+                    raise LostAnchor(f"fn {fs.path}: case_split keeps arm {k} but the match has {len(arms)} arms")
+            for i, (a_start, body_open) in enumerate(arms):
+                if i in keep:
+                    continue
+                if body_open is None:
+                    raise LostAnchor(f"fn {fs.path}: case_split: arm {i} has no block body")
+                ins(body_open + 1, " proof { assume(false); } /* R16: arm verified in another copy */ ", {"type": "rewrite", "rule": "R16", "fn": flabel, "unit": unit, "tline": tline}, prio=9)
+            log["rewrites"].append({"rule": "R16", "fn": flabel, "match": m.group(1), "arms": len(arms), "keep": keep})
+            log.setdefault("case_splits", []).append({"file": relfile, "path": fs.path, "match": m.group(1), "arms": len(arms), "keep": keep, "fn": flabel})
         elif kind in ("before", "after", "replace", "replace?", "before?", "after?"):
             m = re.match(r"/(.+)/(?:#(\d+)of(\d+))?\s*(.*)$", arg)
             if not m:
@@ -825,7 +918,30 @@ def build(unit_dir, out_path):
                         log["items"].append({"file": fs.relfile, "item": cr["path"], "kind": cr["kind"], "auto": "R5", "sha256": hashlib.sha256(ctxt.encode()).hexdigest()})
             except LostAnchor:
                 pass
+            if fs.opts.get("same_as"):
+                # `same_as=ALIAS`: this copy of the function carries the sub-directives of the earlier copy with that alias, then its own
+                ref = [n2[1] for n2 in nodes if n2[0] == "fn" and n2[1].path == fs.path and n2[1].relfile == fs.relfile and n2[1].opts.get("alias") == fs.opts["same_as"]]
+                if not ref:
+                    raise SystemExit(f"template line {fs.tline}: same_as={fs.opts['same_as']}: no such copy of {fs.path}")
+                if not getattr(fs, "_merged", False):
+                    fs.parts = [pt for pt in ref[0].parts if pt[0] != "case_split"] + fs.parts
+                    fs._merged = True
             render_fn(fs, out, unit, log)
+    # R16 coverage: the kept arms of all copies of a function (same match anchor) must cover every arm of that match
+    groups = {}
+    for cs in log.get("case_splits", []):
+        groups.setdefault((cs["file"], cs["path"], cs["match"]), []).append(cs)
+    for (cf, cp, cm), lst in groups.items():
+        n_arms = lst[0]["arms"]
+        covered = set()
+        for cs in lst:
+            if cs["arms"] != n_arms:
+                raise LostAnchor(f"fn {cp}: case_split copies disagree on the number of arms")
+            covered |= set(cs["keep"])
+        missing = [k for k in range(n_arms) if k not in covered]
+        if missing:
+            raise LostAnchor(f"fn {cp}: case_split /{cm}/: arms {missing} of {n_arms} are kept by no copy (the case split is incomplete)")
+        log["rewrites"].append({"rule": "R16-coverage", "fn": cp, "match": cm, "arms": n_arms, "copies": [cs["fn"] for cs in lst]})
     if auto_consts:
         out.add("\nverus! {\n", {"type": "glue"})
         for seg in auto_consts:
